@@ -354,6 +354,7 @@ CHECKS["C13"] = dict(
     rule="rapidcheck-generated scenes; non-trivial = at least one route has a bend (initially or after layout) and at least one node moved by more than its own size; distinct by FNV-1a of the case text",
     min_nontrivial=dict(quick=600, thorough=5000),
     max_aborted_frac=0.008,
+    max_abort_site_frac={"topology_graph.cpp:311 false": 0.0008},     # assertConvexBend: 0-6 of 50 400 on the unchanged tree (seeds 0-3)
     assumptions=["initial routes come from libavoid (UseLeesAlgorithm, no invisibility graph), as in libtopology/tests/beautify.cpp"],
 )
 
